@@ -9,8 +9,10 @@ package main
 import (
 	"bufio"
 	"encoding/hex"
+	"errors"
 	"flag"
 	"fmt"
+	"io"
 	"math/rand/v2"
 	"os"
 	"sort"
@@ -588,8 +590,54 @@ func dupCase(line string) (res string) {
 	return fmt.Sprintf("dup %d %d %s %s", id, ndecoys, v1, v2)
 }
 
+// acceptCase: the ACCEPTANCE path. C07 is about what the tool does with a grammar, and the tool does not call
+// PrepareGrammar itself: builder.BuildParser does, and then decides from its two results (round 15: the ErrNoLeader result
+// dropped when -support-left-recursion is absent). Per case: the verdict of PrepareGrammar on one copy of the grammar, and
+// what BuildParser (into io.Discard) says for two more copies, without and with SupportLeftRecursion(true):
+//
+//	acc <id> <ok0|ok1|noleader|panic> <v0> <v1>       v = ok | lr | noleader | err | panic
+func acceptCase(line string) string {
+	id, rules, _ := parseCase(line)
+	prep := func() (v string) {
+		defer func() {
+			if e := recover(); e != nil {
+				v = "panic"
+			}
+		}()
+		list, _ := buildRules(rules)
+		have, err := builder.PrepareGrammar(&ast.Grammar{Rules: list})
+		switch {
+		case err != nil:
+			return "noleader"
+		case have:
+			return "ok1"
+		}
+		return "ok0"
+	}
+	build := func(lr bool) (v string) {
+		defer func() {
+			if e := recover(); e != nil {
+				v = "panic"
+			}
+		}()
+		list, _ := buildRules(rules)
+		err := builder.BuildParser(io.Discard, &ast.Grammar{Rules: list}, builder.SupportLeftRecursion(lr))
+		switch {
+		case err == nil:
+			return "ok"
+		case errors.Is(err, builder.ErrHaveLeftRecursion):
+			return "lr"
+		case errors.Is(err, builder.ErrNoLeader):
+			return "noleader"
+		}
+		return "err"
+	}
+	return fmt.Sprintf("acc %d %s %s %s", id, prep(), build(false), build(true))
+}
+
 func main() {
 	var (
+		doAcc  = flag.Bool("accept", false, "verdict of PrepareGrammar next to what BuildParser does without / with SupportLeftRecursion")
 		doDup  = flag.Bool("dup", false, "verdict of PrepareGrammar with and without shadowed duplicate definitions of non-first rules")
 		doGen  = flag.Bool("gen", false, "generate cases")
 		doRun  = flag.Bool("run", false, "run cases from stdin on the real analysis")
@@ -612,7 +660,9 @@ func main() {
 		if !strings.HasPrefix(line, "mid ") {
 			continue
 		}
-		if *doDup {
+		if *doAcc {
+			fmt.Fprintln(w, acceptCase(line))
+		} else if *doDup {
 			fmt.Fprintln(w, dupCase(line))
 		} else if *doRun {
 			fmt.Fprintln(w, runCase(line))
